@@ -426,6 +426,26 @@ def main(run):
                 run.violation("Phonopy.symmetrize_force_constants", "compact-ne-full" + ("-selfinv" if self_inv else ""),
                               "API symmetrisation differs between layouts by %.3g" % np.abs(fe - phf.force_constants).max(),
                               dict(cell=name, smat=smat.tolist(), pmat=pm, level=level))
+            # the same through the public setter with other storage of the SAME values (Fortran order, a strided
+            # view, float32, nested lists): the symmetrised force constants must not depend on it
+            ref_full = np.array(phf.force_constants)
+            ref_comp = np.array(phc.force_constants)
+            for lay, arr0, ref in (("full", full0, ref_full), ("compact", fcc0, ref_comp)):
+                big = np.zeros(arr0.shape[:1] + (2 * arr0.shape[1],) + arr0.shape[2:])
+                big[:, ::2] = arr0
+                variants = {"fortran": np.asfortranarray(arr0), "strided-view": big[:, ::2], "nested-list": arr0.tolist()}
+                if float(np.abs(arr0.astype("float32").astype("double") - arr0).max()) == 0.0:
+                    variants["float32"] = arr0.astype("float32")
+                vname = sorted(variants)[(made + (0 if lay == "full" else 1)) % len(variants)]
+                phv = gen.make_phonopy(cell, smat, pmat=pm)
+                phv.force_constants = variants[vname]
+                phv.symmetrize_force_constants(level=max(level, 1))
+                got = np.array(phv.force_constants, dtype="double")
+                if got.shape != ref.shape or not _close(got, ref, scale):
+                    run.violation("Phonopy.symmetrize_force_constants", "storage-variant-api-" + vname,
+                                  "%s force constants set as %s: symmetrised result differs from the C-ordered double input's by %.3g" % (lay, vname, np.abs(got - ref).max() if got.shape == ref.shape else float("nan")),
+                                  dict(cell=name, smat=smat.tolist(), pmat=pm, level=level, layout=lay, variant=vname))
+                run.count("oracle-api-storage-variant %s" % vname, section="oracle")
             # space-group symmetrisation is a projection
             for phx in (phf,):
                 phx.symmetrize_force_constants_by_space_group()
